@@ -24,7 +24,7 @@ From BigNum Require Import Pow SpecPow PowProofs Gcd SpecGcd GcdProofs GcdProofs
 From BigNum Require Import Monty Modpow SpecModpow MontyProofs ModinvZ ModpowProofs ModpowInst InstModpow.
 From BigNum Require Import SpecBytes BytesLemmas Radix RadixText RadixKernels RadixApi SpecRadix
   RadixProofs RadixProofs2 RadixProofs3 RadixTextProofs RadixInst InstRadix InstRadixMul.
-From BigNum Require Import Sign SpecSign SignProofs Rand SpecRand RandProofs.
+From BigNum Require Import Sign SpecSign SignProofs InstSign Rand SpecRand RandProofs.
 From BigNum Require Import Prim SpecPrim PrimProofsCast PrimProofs PrimProofsFloat PrimProofsToFloat
   PrimProofsFromFloat InstPrim.
 From BigNum Require Import BitDigits BitDigitsProofs Iter IterProofs Bytes BytesProofs SignedBytesProofs InstIter InstBytes.
@@ -609,12 +609,12 @@ Qed.
 Print Assumptions C14_rand_biguint_range_panics_iff.
 
 Theorem C14_rand_bigint_range_panics_iff : forall lo hi s k, icanon lo -> icanon hi -> words s ->
-  (gen_bigint_range addsub lo hi s = Panic k <-> ival hi <= ival lo /\ k = EmptyRange) /\
-  (ui_sample_single addsub lo hi s = Panic k <-> ival hi <= ival lo /\ k = EmptyRange) /\
-  ((do u <- ui_new addsub lo hi; ui_sample addsub u s) = Panic k <-> ival hi <= ival lo /\ k = EmptyRange) /\
-  ((do u <- ui_new_inclusive addsub lo hi; ui_sample addsub u s) = Panic k <-> ival hi < ival lo /\ k = EmptyRange).
+  (gen_bigint_range Extracted.signs addsub lo hi s = Panic k <-> ival hi <= ival lo /\ k = EmptyRange) /\
+  (ui_sample_single Extracted.signs addsub lo hi s = Panic k <-> ival hi <= ival lo /\ k = EmptyRange) /\
+  ((do u <- ui_new Extracted.signs addsub lo hi; ui_sample Extracted.signs addsub u s) = Panic k <-> ival hi <= ival lo /\ k = EmptyRange) /\
+  ((do u <- ui_new_inclusive Extracted.signs addsub lo hi; ui_sample Extracted.signs addsub u s) = Panic k <-> ival hi < ival lo /\ k = EmptyRange).
 Proof.
-  intros lo hi s k Cl Ch Ws. pose proof addsub_params_ok as Ha.
+  intros lo hi s k Cl Ch Ws. pose proof addsub_params_ok as Ha. pose proof sign_params_ok as Hg.
   unfold ui_sample_single.
   rewrite gen_bigint_range_spec, ui_new_sample_spec, ui_new_inclusive_sample_spec by auto.
   rewrite !omap_panic_iff.
